@@ -7,10 +7,13 @@ var Registry = map[string]func(*Ctx) int{
 	"C07": C07,
 	"C08": C08,
 	"C11": C11,
+	"C13": C13,
 	"C03": C03,
+	"C04": C04,
 	"C05": C05,
 	"C09": C09,
 	"C10": C10,
 	"C16": C16,
+	"C18": C18,
 	"C19": C19,
 }
